@@ -141,7 +141,7 @@ def load_save(save_filename):
 # --------------------------------------------------------------------------
 # command line
 # --------------------------------------------------------------------------
-def cli(repo_dir, script, args, stdin='open', timeout=120, input_text=None):
+def cli(repo_dir, script, args, stdin='open', timeout=120, input_text=None, on_timeout='raise'):
     """Run a repo script from a scratch copy.  stdin: 'open' (pipe kept open until exit), 'eof' (empty
     pipe), 'devnull', 'closed', 'text' (input_text then kept open).  Exit code is not reported as a
     signal (daemon-thread shutdown quirk)."""
@@ -184,6 +184,8 @@ def cli(repo_dir, script, args, stdin='open', timeout=120, input_text=None):
         p.wait()
         t1.join()
         t2.join()
+        if on_timeout == 'return':          # the caller asked whether the tool ends at all
+            return out_chunks[0], err_chunks[0], None
         raise core.MachineryError('CLI timeout: %s' % ' '.join(cmd))
     t1.join()
     t2.join()
